@@ -165,28 +165,39 @@ def _pure(e, lambdas: bool = False) -> bool:
     return True
 
 
+def _destructure(target, value):
+    """{name: expression} that binding the (possibly nested) tuple `target` to the literal `value` amounts to; None when the shapes differ"""
+    if isinstance(target, ast.Name):
+        return {target.id: value}
+    if isinstance(target, (ast.Tuple, ast.List)) and isinstance(value, (ast.Tuple, ast.List)) and len(value.elts) == len(target.elts) \
+            and not any(isinstance(x, ast.Starred) for x in list(value.elts) + list(target.elts)):
+        out = {}
+        for t, v in zip(target.elts, value.elts):
+            m = _destructure(t, v)
+            if m is None:
+                return None
+            out.update(m)
+        return out
+    return None
+
+
 def _unroll_one(loop: ast.For, seq):
     if loop.orelse or _top_level_jumps(loop.body):
         return None
     tg = loop.target
-    if isinstance(tg, ast.Name):
-        names = [tg.id]
-    elif isinstance(tg, (ast.Tuple, ast.List)) and all(isinstance(e, ast.Name) for e in tg.elts):
-        names = [e.id for e in tg.elts]
-    else:
+    # a name or a (possibly nested) tuple of names: `for (label, width), edge in ...`
+    if not all(isinstance(x, (ast.Name, ast.Tuple, ast.List, ast.expr_context)) for x in ast.walk(tg)):
         return None
+    names = [x.id for x in ast.walk(tg) if isinstance(x, ast.Name)]
     # the loop targets must not be RE-BOUND in the body; mutating the object a target names in place (`c.clear()`, `c[k] = v`)
     # is the same operation on the element expression that replaces the target
     if set(names) & _rebound(loop.body):
         return None
     out = []
     for e in seq.elts:
-        if isinstance(tg, ast.Name):
-            m = {tg.id: e}
-        else:
-            if not isinstance(e, (ast.Tuple, ast.List)) or len(e.elts) != len(names) or any(isinstance(x, ast.Starred) for x in e.elts):
-                return None
-            m = dict(zip(names, e.elts))
+        m = _destructure(tg, e)
+        if m is None:
+            return None
         if not all(_pure(v, lambdas=True) for v in m.values()):
             return None
         for st in loop.body:
@@ -233,24 +244,25 @@ def _scan_chain(loop: ast.For, seq):
     return chain
 
 
-def _unroll_block(stmts, lits):
-    """lits: name -> literal sequence node still valid at this point"""
+def _unroll_block(stmts, lits, static: bool = False):
+    """lits: name -> literal sequence node still valid at this point.  static=True (fold_static): the sequence a loop walks / a
+    local is bound to may also be a stdlib expression over literals (zip, enumerate, accumulate, comprehension ... see _static_seq)"""
     out = []
     lits = dict(lits)
     for st in stmts:
         if isinstance(st, ast.For):
-            seq = _literal_seq(st.iter) or (lits.get(st.iter.id) if isinstance(st.iter, ast.Name) else None)
+            seq = _static_seq(st.iter, lits) if static else (_literal_seq(st.iter) or (lits.get(st.iter.id) if isinstance(st.iter, ast.Name) else None))
             if seq is not None:
                 body_st = _stored(st.body)
                 free = set().union(*[_loaded(e) for e in seq.elts]) if seq.elts else set()
-                if not (free & body_st) and not (isinstance(st.iter, ast.Name) and st.iter.id in body_st):
+                if not (free & body_st) and not (_loaded(st.iter) & body_st if static else (isinstance(st.iter, ast.Name) and st.iter.id in body_st)):
                     after = stmts[stmts.index(st) + 1:]
                     tnames = {n.id for n in ast.walk(st.target) if isinstance(n, ast.Name)}
                     un = _scan_chain(st, seq) if not (tnames & set().union(*[_loaded(a) for a in after], set())) else None
                     if un is None:
                         un = _unroll_one(st, seq)
                     if un is not None:
-                        un = _unroll_block(un, lits)
+                        un = _unroll_block(un, lits, static)
                         for u in un:
                             ast.fix_missing_locations(u)
                         out.extend(un)
@@ -261,17 +273,17 @@ def _unroll_block(stmts, lits):
         for fld in ("body", "orelse", "finalbody"):
             b = getattr(st, fld, None)
             if isinstance(b, list) and b and isinstance(b[0], ast.stmt) and not isinstance(st, (ast.FunctionDef, ast.ClassDef, ast.AsyncFunctionDef)):
-                setattr(st, fld, _unroll_block(b, surviving))
+                setattr(st, fld, _unroll_block(b, surviving, static))
         if isinstance(st, ast.Try):
             for h in st.handlers:
-                h.body = _unroll_block(h.body, surviving)
+                h.body = _unroll_block(h.body, surviving, static)
         # update the table
         for k in list(lits):
             if k in inner_st or (set().union(*[_loaded(e) for e in lits[k].elts]) & inner_st):
                 del lits[k]
         if isinstance(st, ast.Assign) and len(st.targets) == 1 and isinstance(st.targets[0], ast.Name):
-            seq = _literal_seq(st.value)
-            if seq is not None and all(_pure(e, lambdas=True) for e in seq.elts) and st.targets[0].id not in set().union(*[_loaded(e) for e in seq.elts]):
+            seq = _static_seq(st.value, lits) if static else _literal_seq(st.value)
+            if seq is not None and all(_pure(e, lambdas=True) for e in seq.elts) and st.targets[0].id not in set().union(*[_loaded(e) for e in seq.elts], set()):
                 lits[st.targets[0].id] = seq
         out.append(st)
     return out
@@ -976,6 +988,386 @@ def normalize_function(func, tables: dict | None = None):
             func.body = [_CallLambda().visit(st) for st in func.body]
             inline_local_defs(func)
             ast.fix_missing_locations(func)
+    except RecursionError:
+        pass
+    return func
+
+
+# ----------------------------------------------------------------------------------------------- static folding (opt-in pass)
+#
+# fold_static(func) is NOT part of normalize_function: a rule asks for it (pymodel.Package.folded) when it decides a function by
+# the VALUES its statements compute rather than by their arrangement.  It is partial evaluation of the literal part of a function:
+#   * sequences: zip / enumerate / reversed / list / tuple / range / itertools.accumulate / slices / `+` / comprehensions and
+#     generator expressions over literal tuples and lists (and locals bound to them) are the literal they evaluate to, so that a
+#     loop over them is unrolled like a loop over a literal written in place (nested tuple targets included);
+#   * scalars: integer arithmetic on constants, <literal>[<constant>], <dict literal>[<constant>] / .get(<constant>), len / sum of
+#     a literal, `<constant> == <constant>`, `<constant> in <literal of constants>`, and the `if` / conditional expressions whose
+#     test became a constant;
+#   * table dispatch: `if key in <literal dict / tuple of constants>: ... TABLE[key] ...` is the if/elif chain over the keys;
+#   * functools.reduce(f, <literal>, init) is f(f(init, e1), e2)..; a lambda called on the spot is its body;
+#   * getattr(x, "name") / setattr(x, "name", v) with a literal identifier are `x.name` / `x.name = v`.
+# Nothing is executed: only Python's own semantics of these pure builtins on literals is used.
+
+_SEQ_MAX = 64
+
+
+def _num(e) -> bool:
+    return isinstance(e, ast.Constant) and isinstance(e.value, (int, float)) and not isinstance(e.value, bool)
+
+
+def _int(e) -> bool:
+    return isinstance(e, ast.Constant) and isinstance(e.value, int) and not isinstance(e.value, bool)
+
+
+def _plain_seq(e):
+    return isinstance(e, (ast.Tuple, ast.List)) and len(e.elts) <= _SEQ_MAX and not any(isinstance(x, ast.Starred) for x in e.elts)
+
+
+def _const_keys(e):
+    """the constants a literal container holds (dict: its keys), or None when an element is not a constant"""
+    if isinstance(e, ast.Dict):
+        ks = e.keys
+    elif isinstance(e, (ast.Tuple, ast.List, ast.Set)):
+        ks = e.elts
+    else:
+        return None
+    if any(not isinstance(k, ast.Constant) for k in ks):
+        return None
+    return [k.value for k in ks]
+
+
+def _same_const(a, b) -> bool:
+    return type(a) is type(b) and a == b
+
+
+def _mk_tuple(elts, like=None):
+    t = ast.Tuple(elts=list(elts), ctx=ast.Load())
+    if like is not None and hasattr(like, "lineno"):
+        ast.copy_location(t, like)
+    return ast.fix_missing_locations(t)
+
+
+def _slice_bounds(s):
+    """(lo, hi, step) of a slice with constant / absent bounds, or None"""
+    if not isinstance(s, ast.Slice):
+        return None
+    out = []
+    for b in (s.lower, s.upper, s.step):
+        if b is None or (isinstance(b, ast.Constant) and b.value is None):
+            out.append(None)
+        elif _int(b):
+            out.append(b.value)
+        elif isinstance(b, ast.UnaryOp) and isinstance(b.op, ast.USub) and _int(b.operand):
+            out.append(-b.operand.value)
+        else:
+            return None
+    return tuple(out)
+
+
+def _static_seq(e, lits, depth: int = 0):
+    """the literal tuple (of element EXPRESSIONS) that the sequence expression `e` evaluates to, or None.  `lits`: locals known to be
+    bound to such literals.  One-shot iterators (zip, accumulate, generators) bound to a local are treated as the sequence they
+    yield: code that walks such a local twice is not what this pass is for (the second walk would be empty)."""
+    if depth > 8:
+        return None
+    rec = lambda x: _static_seq(x, lits, depth + 1)
+    if _plain_seq(e):
+        return e
+    if isinstance(e, ast.Name):
+        return lits.get(e.id)
+    if isinstance(e, ast.Dict) and _const_keys(e) is not None:
+        return _mk_tuple([copy.deepcopy(k) for k in e.keys], e)
+    if isinstance(e, ast.Subscript):
+        seq, b = rec(e.value), _slice_bounds(e.slice)
+        if seq is not None and b is not None and b[2] in (None, 1, -1):
+            return _mk_tuple(seq.elts[slice(*b)], e)
+        return None
+    if isinstance(e, ast.BinOp) and isinstance(e.op, ast.Add):
+        a, b = rec(e.left), rec(e.right)
+        if a is not None and b is not None and type(a) is type(b) and len(a.elts) + len(b.elts) <= _SEQ_MAX:
+            return _mk_tuple(list(a.elts) + list(b.elts), e)
+        return None
+    if isinstance(e, (ast.ListComp, ast.GeneratorExp)) and len(e.generators) == 1 and not e.generators[0].is_async:
+        g = e.generators[0]
+        seq = rec(g.iter)
+        if seq is None:
+            return None
+        out = []
+        for el in seq.elts:
+            m = _destructure(g.target, el)
+            if m is None or not all(_pure(v, lambdas=True) for v in m.values()):
+                return None
+            keep = True
+            for c in g.ifs:
+                t = _fold_expr(_Subst(dict(m)).visit(copy.deepcopy(c)))
+                if not isinstance(t, ast.Constant):
+                    return None
+                if not t.value:
+                    keep = False
+                    break
+            if keep:
+                out.append(_fold_expr(_Subst(dict(m)).visit(copy.deepcopy(e.elt))))
+        return _mk_tuple(out, e)
+    if not isinstance(e, ast.Call) or any(isinstance(a, ast.Starred) for a in e.args) or any(k.arg is None for k in e.keywords):
+        return None
+    f = e.func
+    kws = {k.arg: k.value for k in e.keywords}
+    if isinstance(f, ast.Attribute) and f.attr in ("items", "keys", "values") and isinstance(f.value, ast.Dict) and not e.args and not kws \
+            and _const_keys(f.value) is not None and len(f.value.keys) <= _SEQ_MAX:
+        d = f.value
+        if f.attr == "keys":
+            return _mk_tuple([copy.deepcopy(k) for k in d.keys], e)
+        if f.attr == "values":
+            return _mk_tuple([copy.deepcopy(v) for v in d.values], e)
+        return _mk_tuple([_mk_tuple([copy.deepcopy(k), copy.deepcopy(v)], e) for k, v in zip(d.keys, d.values)], e)
+    name = ast.unparse(f)
+    if name.startswith("itertools."):
+        name = name[len("itertools."):]
+    if name in lits:
+        return None                     # the builtin's name is a local here
+    if name in ("list", "tuple", "iter") and len(e.args) == 1 and not kws:
+        return rec(e.args[0])
+    if name == "reversed" and len(e.args) == 1 and not kws:
+        seq = rec(e.args[0])
+        return _mk_tuple(reversed(seq.elts), e) if seq is not None else None
+    if name == "zip" and e.args and (not kws or (set(kws) == {"strict"} and isinstance(kws["strict"], ast.Constant))):
+        seqs = [rec(a) for a in e.args]
+        if any(s is None for s in seqs):
+            return None
+        n = min(len(s.elts) for s in seqs)
+        return _mk_tuple([_mk_tuple([copy.deepcopy(s.elts[i]) for s in seqs], e) for i in range(n)], e)
+    if name == "enumerate" and 1 <= len(e.args) <= 2 and set(kws) <= {"start"}:
+        seq = rec(e.args[0])
+        start = e.args[1] if len(e.args) == 2 else kws.get("start", ast.Constant(value=0))
+        if seq is None or not _int(start):
+            return None
+        return _mk_tuple([_mk_tuple([ast.Constant(value=start.value + i), copy.deepcopy(x)], e) for i, x in enumerate(seq.elts)], e)
+    if name == "accumulate" and len(e.args) == 1 and set(kws) <= {"initial"}:
+        seq = rec(e.args[0])
+        init = kws.get("initial")
+        if seq is None or not all(_num(x) for x in seq.elts) or (init is not None and not (_num(init) or (isinstance(init, ast.Constant) and init.value is None))):
+            return None
+        vals = [x.value for x in seq.elts]
+        if init is not None and init.value is not None:
+            vals = [init.value] + vals
+        run, tot = [], None
+        for v in vals:
+            tot = v if tot is None else tot + v
+            run.append(tot)
+        return _mk_tuple([ast.Constant(value=v) for v in run], e)
+    if name == "range" and 1 <= len(e.args) <= 3 and not kws and all(_int(a) for a in e.args):
+        r = range(*[a.value for a in e.args])
+        return _mk_tuple([ast.Constant(value=v) for v in r], e) if len(r) <= _SEQ_MAX else None
+    return None
+
+
+class _Fold(ast.NodeTransformer):
+    """scalar folding of the literal part of an expression (see fold_static)"""
+
+    def visit_BinOp(self, n):
+        self.generic_visit(n)
+        l, r = n.left, n.right
+        if _int(l) and _int(r) and isinstance(n.op, (ast.Add, ast.Sub, ast.Mult)):
+            v = l.value + r.value if isinstance(n.op, ast.Add) else l.value - r.value if isinstance(n.op, ast.Sub) else l.value * r.value
+            return ast.copy_location(ast.Constant(value=v), n)
+        if _int(l) and _int(r) and isinstance(n.op, ast.FloorDiv) and r.value > 0 and l.value >= 0:
+            return ast.copy_location(ast.Constant(value=l.value // r.value), n)
+        return n
+
+    def visit_UnaryOp(self, n):
+        self.generic_visit(n)
+        if isinstance(n.op, ast.Not) and isinstance(n.operand, ast.Constant):
+            return ast.copy_location(ast.Constant(value=not n.operand.value), n)
+        return n
+
+    def visit_Subscript(self, n):
+        self.generic_visit(n)
+        if not isinstance(n.ctx, ast.Load):
+            return n
+        v, s = n.value, n.slice
+        if isinstance(v, ast.Dict) and isinstance(s, ast.Constant) and _const_keys(v) is not None and all(_pure(x, lambdas=True) for x in v.values):
+            hit = [val for k, val in zip(v.keys, v.values) if _same_const(k.value, s.value)]
+            if hit:
+                return ast.copy_location(copy.deepcopy(hit[-1]), n)
+        if _plain_seq(v) and all(_pure(x, lambdas=True) for x in v.elts):
+            if _int(s) and -len(v.elts) <= s.value < len(v.elts):
+                return ast.copy_location(copy.deepcopy(v.elts[s.value]), n)
+            b = _slice_bounds(s)
+            if b is not None and b[2] in (None, 1):
+                new = type(v)(elts=[copy.deepcopy(x) for x in v.elts[slice(*b)]], ctx=ast.Load())
+                return ast.copy_location(new, n)
+        return n
+
+    def visit_Compare(self, n):
+        self.generic_visit(n)
+        if len(n.ops) != 1:
+            return n
+        l, r, op = n.left, n.comparators[0], n.ops[0]
+        if isinstance(l, ast.Constant) and isinstance(r, ast.Constant) and isinstance(op, (ast.Eq, ast.NotEq)) \
+                and (type(l.value) is type(r.value) or isinstance(l.value, str) != isinstance(r.value, str)):
+            eq = _same_const(l.value, r.value)
+            return ast.copy_location(ast.Constant(value=eq if isinstance(op, ast.Eq) else not eq), n)
+        if isinstance(l, ast.Constant) and isinstance(op, (ast.In, ast.NotIn)):
+            ks = _const_keys(r)
+            if ks is not None and (isinstance(l.value, str) or l.value is None or all(type(k) is type(l.value) for k in ks)):
+                inside = any(_same_const(k, l.value) for k in ks)
+                return ast.copy_location(ast.Constant(value=inside if isinstance(op, ast.In) else not inside), n)
+        return n
+
+    def visit_BoolOp(self, n):
+        self.generic_visit(n)
+        is_and = isinstance(n.op, ast.And)
+        vals = []
+        for i, v in enumerate(n.values):
+            if isinstance(v, ast.Constant) and bool(v.value) == is_and and i < len(n.values) - 1:
+                continue            # `True and x` is x;  `False or x` is x
+            vals.append(v)
+            if isinstance(v, ast.Constant) and bool(v.value) != is_and:
+                break               # `x and False and y` stops at False
+        # a leading decisive constant decides the whole expression
+        if isinstance(vals[0], ast.Constant) and bool(vals[0].value) != is_and:
+            return ast.copy_location(vals[0], n)
+        if len(vals) == 1:
+            return vals[0]
+        n.values = vals
+        return n
+
+    def visit_IfExp(self, n):
+        self.generic_visit(n)
+        if isinstance(n.test, ast.Constant):
+            return n.body if n.test.value else n.orelse
+        return n
+
+    def visit_Call(self, n):
+        self.generic_visit(n)
+        f = n.func
+        if any(isinstance(a, ast.Starred) for a in n.args) or any(k.arg is None for k in n.keywords):
+            return n
+        name = ast.unparse(f) if isinstance(f, (ast.Name, ast.Attribute)) else ""
+        if name == "len" and len(n.args) == 1 and not n.keywords and (_plain_seq(n.args[0]) or (isinstance(n.args[0], ast.Dict) and None not in n.args[0].keys)):
+            a = n.args[0]
+            return ast.copy_location(ast.Constant(value=len(a.keys if isinstance(a, ast.Dict) else a.elts)), n)
+        if name == "sum" and len(n.args) == 1 and not n.keywords and _plain_seq(n.args[0]) and all(_int(x) for x in n.args[0].elts):
+            return ast.copy_location(ast.Constant(value=sum(x.value for x in n.args[0].elts)), n)
+        if name in ("reduce", "functools.reduce") and len(n.args) in (2, 3) and not n.keywords and _plain_seq(n.args[1]) \
+                and all(_pure(x) for x in n.args[1].elts) and _pure(n.args[0], lambdas=True):
+            elts = list(n.args[1].elts)
+            acc = n.args[2] if len(n.args) == 3 else (elts.pop(0) if elts else None)
+            if acc is not None:
+                for el in elts:
+                    acc = self.visit_Call(ast.copy_location(ast.Call(func=copy.deepcopy(n.args[0]), args=[acc, copy.deepcopy(el)], keywords=[]), n))
+                return ast.fix_missing_locations(acc)
+        if isinstance(f, ast.Lambda) and not n.keywords:
+            a = f.args
+            params = [p.arg for p in a.args]
+            if not (a.posonlyargs or a.kwonlyargs or a.vararg or a.kwarg or a.defaults) and len(params) == len(n.args) \
+                    and not any(isinstance(x, (ast.Lambda, ast.ListComp, ast.SetComp, ast.DictComp, ast.GeneratorExp)) for x in ast.walk(f.body)):
+                uses = {p: sum(1 for x in ast.walk(f.body) if isinstance(x, ast.Name) and x.id == p) for p in params}
+                if all(_pure(arg, lambdas=True) or uses[p] == 1 for p, arg in zip(params, n.args)):
+                    return ast.copy_location(_Subst(dict(zip(params, n.args))).visit(copy.deepcopy(f.body)), n)
+        if name == "getattr" and len(n.args) == 2 and not n.keywords and isinstance(n.args[1], ast.Constant) and isinstance(n.args[1].value, str) \
+                and n.args[1].value.isidentifier():
+            return ast.copy_location(ast.Attribute(value=n.args[0], attr=n.args[1].value, ctx=ast.Load()), n)
+        if isinstance(f, ast.Attribute) and f.attr == "get" and isinstance(f.value, ast.Dict) and 1 <= len(n.args) <= 2 and not n.keywords \
+                and isinstance(n.args[0], ast.Constant) and _const_keys(f.value) is not None and all(_pure(x, lambdas=True) for x in f.value.values):
+            hit = [val for k, val in zip(f.value.keys, f.value.values) if _same_const(k.value, n.args[0].value)]
+            if hit:
+                return ast.copy_location(copy.deepcopy(hit[-1]), n)
+            if len(n.args) == 1 or _pure(n.args[1], lambdas=True):
+                return ast.copy_location(n.args[1] if len(n.args) == 2 else ast.Constant(value=None), n)
+        return n
+
+    def visit_Expr(self, n):
+        self.generic_visit(n)
+        c = n.value
+        if isinstance(c, ast.Call) and isinstance(c.func, ast.Name) and c.func.id == "setattr" and len(c.args) == 3 and not c.keywords \
+                and isinstance(c.args[1], ast.Constant) and isinstance(c.args[1].value, str) and c.args[1].value.isidentifier():
+            new = ast.Assign(targets=[ast.Attribute(value=c.args[0], attr=c.args[1].value, ctx=ast.Store())], value=c.args[2])
+            return ast.fix_missing_locations(ast.copy_location(new, n))
+        return n
+
+
+def _fold_expr(e):
+    return ast.fix_missing_locations(_Fold().visit(e))
+
+
+def _prune_const_ifs(stmts):
+    """`if <constant>:` is the arm it selects"""
+    out = []
+    for st in stmts:
+        if not isinstance(st, (ast.FunctionDef, ast.ClassDef, ast.AsyncFunctionDef)):
+            for fld in ("body", "orelse", "finalbody"):
+                b = getattr(st, fld, None)
+                if isinstance(b, list) and b and isinstance(b[0], ast.stmt):
+                    nb = _prune_const_ifs(b)
+                    setattr(st, fld, nb if nb or fld != "body" else [ast.copy_location(ast.Pass(), st)])
+            if isinstance(st, ast.Try):
+                for h in st.handlers:
+                    h.body = _prune_const_ifs(h.body) or [ast.copy_location(ast.Pass(), st)]
+        if isinstance(st, ast.If) and isinstance(st.test, ast.Constant):
+            out.extend(st.body if st.test.value else st.orelse)
+            continue
+        out.append(st)
+    return out
+
+
+class _TableDispatch(ast.NodeTransformer):
+    """`if key in <literal dict / tuple / list / set of constants> [and c]: B` whose body (or c) looks something up BY key --
+    `<dict literal>[key]`, getattr / setattr with a name computed from key -- is the chain `if key == k1 [and c]: B[key := k1]
+    elif key == k2 ..: B[key := k2] .. else: <the original else>`: inside each arm key IS that constant.  key is a plain name that
+    the body does not re-bind."""
+
+    @staticmethod
+    def _keyed(nodes, name) -> bool:
+        for st in nodes:
+            for x in ast.walk(st):
+                if isinstance(x, ast.Subscript) and isinstance(x.value, ast.Dict) and isinstance(x.slice, ast.Name) and x.slice.id == name:
+                    return True
+                if isinstance(x, ast.Call) and isinstance(x.func, ast.Name) and x.func.id in ("getattr", "setattr") and len(x.args) >= 2 \
+                        and any(isinstance(y, ast.Name) and y.id == name for y in ast.walk(x.args[1])):
+                    return True
+        return False
+
+    def visit_If(self, n):
+        self.generic_visit(n)
+        first, rest = n.test, []
+        if isinstance(first, ast.BoolOp) and isinstance(first.op, ast.And):
+            first, rest = first.values[0], first.values[1:]
+        if not (isinstance(first, ast.Compare) and len(first.ops) == 1 and isinstance(first.ops[0], ast.In) and isinstance(first.left, ast.Name)):
+            return n
+        x = first.left.id
+        keys = _const_keys(first.comparators[0])
+        if not keys or len(keys) > 12 or len(set(map(repr, keys))) != len(keys) or x in _rebound(n.body) or not self._keyed(list(n.body) + list(rest), x):
+            return n
+        chain = list(n.orelse)
+        for k in reversed(keys):
+            m = {x: ast.Constant(value=k)}
+            test = ast.Compare(left=ast.Name(id=x, ctx=ast.Load()), ops=[ast.Eq()], comparators=[ast.Constant(value=k)])
+            if rest:
+                test = ast.BoolOp(op=ast.And(), values=[test] + [_Subst(dict(m)).visit(copy.deepcopy(c)) for c in rest])
+            body = [_Subst(dict(m)).visit(copy.deepcopy(st)) for st in n.body]
+            node = ast.copy_location(ast.If(test=test, body=body, orelse=chain), n)
+            chain = [ast.fix_missing_locations(node)]
+        return chain[0]
+
+
+def fold_static(func):
+    """partial evaluation of the literal part of `func` (in place; see the section comment).  Idempotent; a construct it cannot fold
+    safely is left as written."""
+    try:
+        for _ in range(4):
+            before = ast.dump(func)
+            func.body = [_Fold().visit(st) for st in func.body]
+            func.body = _prune_const_ifs(func.body) or [ast.Pass()]
+            func.body = _unroll_block(func.body, {}, static=True)
+            func.body = [_TableDispatch().visit(st) for st in func.body]
+            func.body = [_Fold().visit(st) for st in func.body]
+            func.body = _prune_const_ifs(func.body) or [ast.Pass()]
+            _drop_dead_tables(func)
+            inline_local_defs(func)
+            ast.fix_missing_locations(func)
+            if ast.dump(func) == before:
+                break
     except RecursionError:
         pass
     return func
